@@ -71,6 +71,10 @@ type Engine struct {
 	astFn  map[*types.Func]*ast.FuncDecl
 	pdoms  map[*ssa.Function]*pdomInfo
 	files  int
+	reachMemo map[*ssa.Function]map[*ssa.Function]bool
+	calleeMemo map[ssa.CallInstruction][]*ssa.Function
+	core *coreState
+	locks map[string]*lockResult
 }
 
 func (e *Engine) note(format string, a ...interface{}) {
@@ -175,6 +179,7 @@ func load(repo, tags, goarch string) (*Engine, error) {
 		e.allSet[fn] = true
 	}
 	sort.Slice(e.all, func(i, j int) bool { return e.all[i].Pos() < e.all[j].Pos() })
+	e.indexFieldOwners()
 	return e, nil
 }
 
@@ -391,6 +396,18 @@ func (e *Engine) callgraph() *callgraph.Graph {
 
 // callees returns the possible callees (inside the six packages, source functions) of a call instruction.
 func (e *Engine) callees(site ssa.CallInstruction) []*ssa.Function {
+	if e.calleeMemo == nil {
+		e.calleeMemo = map[ssa.CallInstruction][]*ssa.Function{}
+	}
+	if r, ok := e.calleeMemo[site]; ok {
+		return r
+	}
+	r := e.callees0(site)
+	e.calleeMemo[site] = r
+	return r
+}
+
+func (e *Engine) callees0(site ssa.CallInstruction) []*ssa.Function {
 	if f := site.Common().StaticCallee(); f != nil {
 		return []*ssa.Function{e.unwrap(f)}
 	}
@@ -447,6 +464,21 @@ func (e *Engine) unwrap(f *ssa.Function) *ssa.Function {
 
 // reach returns all source functions of the six packages reachable from roots via the call graph (including roots).
 func (e *Engine) reach(roots ...*ssa.Function) map[*ssa.Function]bool {
+	if len(roots) == 1 {
+		if e.reachMemo == nil {
+			e.reachMemo = map[*ssa.Function]map[*ssa.Function]bool{}
+		}
+		if m, ok := e.reachMemo[roots[0]]; ok {
+			return m
+		}
+		m := e.reach0(roots...)
+		e.reachMemo[roots[0]] = m
+		return m
+	}
+	return e.reach0(roots...)
+}
+
+func (e *Engine) reach0(roots ...*ssa.Function) map[*ssa.Function]bool {
 	seen := map[*ssa.Function]bool{}
 	var visit func(f *ssa.Function)
 	visit = func(f *ssa.Function) {
